@@ -171,7 +171,11 @@ func vfMutexBlockedInRepo() string {
 			id := strings.Fields(lines[0])[1]
 			for i := 1; i+1 < len(lines); i += 2 {
 				fn, file := lines[i], lines[i+1]
-				if (strings.Contains(file, "/repo/") || strings.Contains(file, "/s2s-proxy/")) && !strings.Contains(file, "/vf_") && !strings.Contains(file, "/vfshared/") {
+				inRepo := strings.Contains(file, "/repo/") || strings.Contains(file, "/s2s-proxy/")
+				if r := os.Getenv("VF_REPO"); r != "" && strings.Contains(file, r+"/") { // checks may run against a scratch worktree
+					inRepo = true
+				}
+				if inRepo && !strings.Contains(file, "/vf_") && !strings.Contains(file, "/vfshared/") {
 					if k := strings.Index(fn, "("); k > 0 {
 						fn = fn[:k]
 					}
